@@ -12,6 +12,15 @@ S->I: TLC enumerates dependency graphs of constants and functions (all graphs on
       direct / through calls / nested blocks / imports / other modules); the harness
       compiles it in a fresh Runtime and logs `mark` calls, the compile outcome and the
       values returned by getters and functions; these are compared with TLC's output.
+      Value types and copies (ConstOrder.Types / Mut): the "typed" family gives the constants of all graphs on
+      <= 2 items every combination of value types (i32, bool, (), empty record, record of units, record of
+      scalars, i32?, nested record, String, List[i32]): each initialiser still calls mark / marku once, so a
+      constant that is never evaluated or evaluated twice shows whatever it holds.  The "walk" family (TLC
+      `-simulate`) adds a recorded programme of Call-phase actions to a typed graph: Mut (a function copies a
+      constant into a local / a by-value parameter of a callee / takes it from a function that returns it,
+      modifies the copy - whole value, field, nested field, push ... - and shows the copy and a fresh read of the
+      constant), GetV (typed getter), Get, Call, each with the result TLC computed from ConstOrder: the stored
+      value never changes, except that a push through a copy of a list constant is visible (lists are shared).
 I->S: the recorded events of every such compilation, plus those of larger seeded
       random graphs (7-10 items) that have no precomputed expectation, are
       concatenated into trace files which TLC validates against ConstOrder
@@ -35,6 +44,19 @@ MODULUS = 1009
 CTXVAL = 7
 
 RUN_ACTIONS = ["MCEvalConst", "MCReject", "MCDone", "MCCall", "MCGet"]
+TYPED_ACTIONS = ["MCGetV", "MCMut"]
+
+# value types of constants and the ways a copy can be modified: mirrors ConstOrder.Types / Hows (used to RENDER
+# the cases TLC emits, to let the seeded python generator pick applicable modifications, and as the list the
+# anti-vacuity guard wants to see; a disagreement with the spec is rejected by TLC: Mut requires h \in Hows(ty))
+TYPES = ["i32", "bool", "unit", "erec", "urec", "rec2", "opt", "nest", "str", "list"]
+ZERO_SIZED = ("unit", "erec", "urec")
+HOWS = {"i32": ["whole", "add"], "bool": ["whole", "not"], "unit": ["whole"], "erec": ["whole"],
+        "urec": ["whole", "field"], "rec2": ["whole", "field", "add"], "opt": ["whole", "none"],
+        "nest": ["whole", "field", "deep", "sub"], "str": ["whole", "append"], "list": ["whole", "push"]}
+VIAS = ["local", "param", "ret"]
+RECORD_DECLS = {"P2": "record P2 { a: i32, b: i32 }", "N3": "record N3 { p: P2, c: i32 }",
+                "U2": "record U2 { u: (), w: () }", "E0": "record E0 {}"}
 BUILD_ACTIONS = ["MCAddEdge", "MCInjectEdge", "MCInjectCtx", "MCStart"]
 
 # forms of a use site of an i32 value (constant, function result, integer context variable)
@@ -56,7 +78,8 @@ LAYOUTS = [
 
 # ------------------------------------------------------------------ TLC side
 
-def mc_cfg(path, n, mode, maxctx=0, minedges=0, maxedges=0, maxinject=0, emit=True):
+def mc_cfg(path, n, mode, maxctx=0, minedges=0, maxedges=0, maxinject=0, emit=True, muton=False, ws=(0, 7, 40),
+           maxlen=3, walklen=0):
     with open(path, "w") as f:
         f.write("""SPECIFICATION MCSpec
 CONSTANTS
@@ -69,19 +92,26 @@ CONSTANTS
   MinEdges = %d
   MaxEdges = %d
   MaxInject = %d
+  MutOn = %s
+  Ws = {%s}
+  MaxLen = %d
+  WalkLen = %d
 INVARIANTS Inv%s
 CHECK_DEADLOCK FALSE
-""" % (FUEL, MODULUS, CTXVAL, n, mode, maxctx, minedges, maxedges, maxinject, " Emit" if emit else ""))
+""" % (FUEL, MODULUS, CTXVAL, n, mode, maxctx, minedges, maxedges, maxinject, "TRUE" if muton else "FALSE",
+       ", ".join(str(w) for w in ws), maxlen, walklen, " Emit" if emit else ""))
 
 
 def graph_key(c):
-    return json.dumps([c["n"], c["kind"], sorted(map(tuple, c["refs"])), sorted(c["ctx"])])
+    return json.dumps([c["n"], c["kind"], sorted(map(tuple, c["refs"])), sorted(c["ctx"]), c["ty"], c["prog"]])
 
 
 def normalise(c):
     c["refs"] = sorted([list(e) for e in c["refs"]])
     c["ctx"] = sorted(c["ctx"])
     c["deps"] = [sorted(d) for d in c["deps"]]
+    c["ty"] = list(c["ty"])
+    c["prog"] = list(c["prog"])
     return c
 
 
@@ -94,12 +124,15 @@ def generate_graphs(tier, ev):
     exhaustive = []
 
     def add(r, family):
+        keys = set()
         for c in r.replay:
             c = normalise(c)
             c["family"] = family
+            keys.add(graph_key(c))
             graphs.setdefault(graph_key(c), c)
         for a, (_, tot) in r.coverage.items():
             cov[a] = cov.get(a, 0) + tot
+        return len(keys)
 
     for n in (1, 2, 3):
         cfg = os.path.join(d, "all_%d.cfg" % n)
@@ -114,6 +147,8 @@ def generate_graphs(tier, ev):
         if len(graphs) - before != expect:
             raise vlib.ToolError("MCConstOrder N=%d emitted %d graphs, expected %d" % (n, len(graphs) - before, expect))
         exhaustive.append("N=%d (context users <= %d): %d graphs, %d states" % (n, maxctx, expect, r.distinct))
+        if os.environ.get("C14_TIMING"):
+            vlib.log("C14: TLC all N=%d: %.1fs" % (n, r.wall))
     require_coverage_counts(cov, RUN_ACTIONS, "exhaustive runs")
 
     # seeded simulation: graphs on 4..6 items built edge by edge, optionally damaged
@@ -127,23 +162,65 @@ def generate_graphs(tier, ev):
     for k, (n, lo, hi, inj, num) in enumerate(plan):
         cfg = os.path.join(d, "sim_%d.cfg" % k)
         mc_cfg(cfg, n, "build", minedges=lo, maxedges=hi, maxinject=inj)
-        jobs.append((cfg, hi + inj + n + 6, num, vlib.seed() + k))
+        jobs.append(("sim", cfg, hi + inj + n + 6, num, vlib.seed() + k, None))
+    # value types: every combination of types on all graphs with <= 2 items (exhaustive; the run phase includes
+    # GetV / Mut where affordable) ...
+    if tier == "quick":
+        typed = [(1, 1, True, (0, 7, 40)), (2, 0, False, (0, 7))]
+    else:
+        typed = [(1, 1, True, (0, 7, 40)), (2, 1, True, (0, 7))]
+    for (n, maxctx, muton, ws) in typed:
+        cfg = os.path.join(d, "typed_%d.cfg" % n)
+        mc_cfg(cfg, n, "typed", maxctx=maxctx, muton=muton, ws=ws)
+        nctx = sum(1 for k in range(2 ** n) if bin(k).count("1") <= maxctx)
+        expect = sum((len(TYPES) ** kk) * (2 ** (n * n)) * nctx for kk in
+                     [sum(bits) for bits in itertools.product((0, 1), repeat=n)])
+        jobs.append(("typed%d" % n, cfg, None, None, None, (n, maxctx, muton, expect)))
+    # ... and recorded programmes of Call-phase actions (copies of constants modified by functions) on typed
+    # graphs built edge by edge
+    if tier == "quick":
+        walks = [(3, 1, 5, 6, 70), (2, 0, 3, 5, 30)]
+    else:
+        walks = [(3, 2, 5, 6, 250), (2, 0, 3, 5, 120), (3, 0, 3, 4, 200), (3, 3, 7, 8, 200), (4, 2, 6, 6, 150)]
+    for k, (n, lo, hi, wl, num) in enumerate(walks):
+        cfg = os.path.join(d, "walk_%d.cfg" % k)
+        mc_cfg(cfg, n, "walk", minedges=lo, maxedges=hi, walklen=wl, ws=(0, 7, 40), maxlen=4)
+        jobs.append(("walk", cfg, hi + 2 * n + wl + 6, num, vlib.seed() + 100 + k, None))
     simcov = {}
-    with ThreadPoolExecutor(max_workers=5) as ex:
-        futs = [ex.submit(run_tlc, "MCConstOrder", cfg, workers=1, simulate=num, depth=depth, timeout=1200,
-                          tlc_seed=sd, coverage=True,
-                          metadir=vlib.workdir("_tlc", "MCConstOrder_" + os.path.basename(cfg), clean=True))
-                for (cfg, depth, num, sd) in jobs]
-        for f in futs:
+    typedcov = {}
+
+    def tlc_job(job):
+        (fam, cfg, depth, num, sd, _x) = job
+        md = vlib.workdir("_tlc", "MCConstOrder_" + os.path.basename(cfg), clean=True)
+        if fam.startswith("typed"):
+            return run_tlc("MCConstOrder", cfg, workers=1, timeout=1200, coverage=True, metadir=md)
+        return run_tlc("MCConstOrder", cfg, workers=1, simulate=num, depth=depth, timeout=1200, tlc_seed=sd,
+                       coverage=True, metadir=md)
+
+    with ThreadPoolExecutor(max_workers=6) as ex:
+        futs = [ex.submit(tlc_job, job) for job in jobs]
+        for job, f in zip(jobs, futs):
+            fam = job[0]
             r = f.result()
+            if os.environ.get("C14_TIMING"):
+                vlib.log("C14: TLC %s %s: %.1fs, %d cases" % (fam, os.path.basename(job[1]), r.wall, len(r.replay)))
             if r.error or r.invariant_violated or r.rc != 0:
-                require_tlc_ok(r, "MCConstOrder simulate")
+                require_tlc_ok(r, "MCConstOrder %s" % fam)
             ev.add_tlc(r)
             before = dict(cov)
-            add(r, "sim")
+            ngr = add(r, fam)
+            tgt = simcov if fam == "sim" else typedcov
             for a in cov:
-                simcov[a] = simcov.get(a, 0) + cov[a] - before.get(a, 0)
+                tgt[a] = tgt.get(a, 0) + cov[a] - before.get(a, 0)
+            if fam.startswith("typed"):
+                (n, maxctx, muton, expect) = job[5]
+                if ngr != expect:
+                    raise vlib.ToolError("MCConstOrder typed N=%d emitted %d graphs, expected %d" % (n, ngr, expect))
+                exhaustive.append("typed N=%d (every combination of %d value types, context users <= %d, copies "
+                                  "modified in the run phase: %s): %d graphs, %d states" %
+                                  (n, len(TYPES), maxctx, "yes" if muton else "walks only", expect, r.distinct))
     require_coverage_counts(simcov, BUILD_ACTIONS + RUN_ACTIONS, "simulation runs")
+    require_coverage_counts(typedcov, ["MCAddEdge", "MCStart"] + RUN_ACTIONS + TYPED_ACTIONS, "typed / walk runs")
     ev.extra["mc_action_counts"] = cov
     return [graphs[k] for k in sorted(graphs)], exhaustive
 
@@ -170,12 +247,15 @@ def qual(a, b, name, style):
     return ".".join(["super"] * (len(a) - p) + b[p:] + [name])
 
 
-def make_script(g, rng, layout_idx=None, order=None):
+def make_script(g, rng, layout_idx=None, order=None, prog=None):
     """Map a dependency graph to a roto script (list of source files) + the functions to call.
     Only representation choices are made here (names, modules, declaration order, the
     syntactic form of every reference); each edge i->j is mentioned exactly once in the
-    body of i and contributes exactly one term to its sum."""
+    body of i and contributes exactly one term to its sum.
+    g["ty"]: value types of the constants (ConstOrder.Types); prog: the Call-phase programme (list of
+    {"op": "mut"|"getv"|"get"|"call", "id": .., ["via", "how", "w"]}): one function per action."""
     n = g["n"]
+    ty = {i: (g.get("ty") or ["i32"] * n)[i - 1] for i in range(1, n + 1)}
     layout = LAYOUTS[layout_idx if layout_idx is not None else rng.randrange(len(LAYOUTS))]
     nmod = len(layout)
     home = {i: rng.randrange(nmod) for i in range(1, n + 1)}
@@ -211,6 +291,154 @@ def make_script(g, rng, layout_idx=None, order=None):
                 styles_used.add("samename:" + {"ccc": "const-const-const", "cfc": "const-fn-const",
                                                "fcf": "fn-const-fn", "fff": "fn-fn-fn"}[kinds])
 
+    # ---- value types: representation of ConstOrder.Store / Num / Flat / Apply in roto source
+    # a record type is either one of the named records declared in the root module or an anonymous record type
+    # (a constant of an anonymous record type cannot be passed to / returned by a function whose signature
+    # spells the same anonymous type: roto reports mismatched types; those constants get the named type)
+    spelled = {op["id"] for op in (prog or []) if op.get("via") in ("param", "ret")}
+    anon = {i: ty[i] in ("urec", "rec2", "nest") and i not in spelled and rng.random() < 0.35 for i in ty}
+    need_decl = set()
+
+    def tpath(m, name):
+        """a record type declared in the root module, as written inside module index m"""
+        need_decl.add(name)
+        if name == "N3":
+            need_decl.add("P2")
+        a = layout[m]
+        if not a:
+            return rng.choice([name, name, "pkg." + name])
+        return rng.choice(["pkg." + name, ".".join(["super"] * len(a) + [name])])
+
+    def tyexpr(m, i):
+        t = ty[i]
+        if t in ("i32", "bool"):
+            return t
+        if t == "unit":
+            return "()"
+        if t == "erec":
+            return tpath(m, "E0")
+        if t == "urec":
+            return "{ u: (), w: () }" if anon[i] else tpath(m, "U2")
+        if t == "rec2":
+            return "{ a: i32, b: i32 }" if anon[i] else tpath(m, "P2")
+        if t == "opt":
+            return "i32?"
+        if t == "nest":
+            return "{ p: { a: i32, b: i32 }, c: i32 }" if anon[i] else tpath(m, "N3")
+        return {"str": "String", "list": "List[i32]"}[t]
+
+    def p2lit(m, i, a, b):
+        return ("{ a: %s, b: %s }" if anon[i] else tpath(m, "P2") + " { a: %s, b: %s }") % (a, b)
+
+    def build(m, i, v, pure):
+        """expression of type ty[i] with the value ConstOrder.Store(ty[i], v); v is an i32 expression that is
+        evaluated exactly once (pure: v is a literal, nothing has to be evaluated for a type without leaves)"""
+        t = ty[i]
+        if t == "i32":
+            return v
+        if t == "bool":
+            return "(%s %% 2 == 1)" % v
+        if t in ZERO_SIZED:
+            if t == "unit":
+                lit = "()"
+            elif t == "erec":
+                lit = tpath(m, "E0") + " {}"
+            else:
+                lit = "{ u: (), w: () }" if anon[i] else tpath(m, "U2") + " { u: (), w: () }"
+            if pure:
+                return lit
+            if t == "unit":
+                return rng.choice(["{ %s; }" % v, "{ let v = %s; () }" % v])
+            return "{ %s; %s }" % (v, lit)
+        if t == "rec2":
+            return "{ let v = %s; %s }" % (v, p2lit(m, i, "v", "(v + 1) %% %d" % MODULUS))
+        if t == "opt":
+            return "{ let v = %s; if v %% 2 == 1 { Some(v) } else { None } }" % v
+        if t == "nest":
+            inner = p2lit(m, i, "v", "(v + 1) %% %d" % MODULUS)
+            outer = "{ p: %s, c: %s }" if anon[i] else tpath(m, "N3") + " { p: %s, c: %s }"
+            return "{ let v = %s; %s }" % (v, outer % (inner, "(v + 2) %% %d" % MODULUS))
+        if t == "str":
+            if pure:
+                return '"%s"' % v
+            return rng.choice(['{ let v = %s; f"{v}" }', "{ let v = %s; v.to_string() }"]) % v
+        return "[%s]" % v
+
+    def num_expr(i, pth):
+        """i32 expression with the value ConstOrder.Num(ty[i], value of the path expression pth)"""
+        t = ty[i]
+        if t == "i32":
+            return pth
+        if t == "bool":
+            return "(if %s { 1 } else { 0 })" % pth
+        if t in ("unit", "erec"):
+            return rng.choice(["({ %s; 0 })", "({ let z = %s; 0 })"]) % pth
+        if t == "urec":
+            return rng.choice(["({ %s.u; %s.w; 0 })" % (pth, pth), "({ let z = %s; z.u; 0 })" % pth])
+        if t == "rec2":
+            return "(%s.a + %s.b)" % (pth, pth)
+        if t == "opt":
+            return "(match %s { Some(o) => o, None => 0 })" % pth
+        if t == "nest":
+            return "(%s.p.a + %s.p.b + %s.c)" % (pth, pth, pth)
+        if t == "str":
+            return "num(%s)" % pth
+        return "({ let z = 0; for e in %s { z = z + e; } z })" % pth
+
+    def flat_stmts(i, x, out):
+        """statements that bind the String `out` to the rendering of ConstOrder.Flat(ty[i], value of x): the
+        leaves in decimal, separated by commas"""
+        t = ty[i]
+        if t == "i32":
+            return 'let %s = f"{%s}";' % (out, x)
+        if t == "bool":
+            return 'let %s = if %s { "1" } else { "0" };' % (out, x)
+        if t in ("unit", "erec"):
+            return '%s; let %s = "";' % (x, out)
+        if t == "urec":
+            return '%s.u; let %s = "";' % (x, out)
+        if t == "rec2":
+            return 'let %s = f"{%s.a},{%s.b}";' % (out, x, x)
+        if t == "opt":
+            return 'let %s = match %s { Some(o) => f"1,{o}", None => "0" };' % (out, x)
+        if t == "nest":
+            return 'let %s = f"{%s.p.a},{%s.p.b},{%s.c}";' % (out, x, x, x)
+        if t == "str":
+            return "let %s = %s;" % (out, x)
+        return 'let %s = f"{%s.len()}"; for e in %s { %s = %s.append(f",{e}"); }' % (out, x, x, out, out)
+
+    def modify(m, i, how, w):
+        """statements that apply ConstOrder.Apply(ty[i], q, how, w) to the variable q"""
+        t = ty[i]
+        if how == "whole":
+            return "q = %s;" % build(m, i, str(w), True)
+        if how == "add":
+            lhs = "q" if t == "i32" else "q.a"
+            return rng.choice(["%s = %s + %d;" % (lhs, lhs, w), "%s += %d;" % (lhs, w)])
+        if how == "not":
+            return "q = !q;"
+        if how == "field":
+            return {"urec": "q.u = ();", "rec2": "q.b = %d;" % w, "nest": "q.c = %d;" % w}[t]
+        if how == "deep":
+            return "q.p.b = %d;" % w
+        if how == "sub":
+            return "q.p = %s;" % p2lit(m, i, str(w), "(%d + 1) %% %d" % (w, MODULUS))
+        if how == "none":
+            return "q = None;"
+        if how == "append":
+            return 'q = q.append("%d");' % (w % 10)
+        if how == "push":
+            return "q.push(%d);" % w
+        raise vlib.ToolError("unknown modification %s" % how)
+
+    def cpath(m, j):
+        """constant / function j as written inside module index m (no import)"""
+        if home[j] == m:
+            return rng.choice([names[j], names[j], qual(layout[m], layout[m], names[j], "abs")])
+        return qual(layout[m], layout[home[j]], names[j], rng.choice(["abs", "rel"]))
+
+    in_fn_now = [False]
+
     def mention(m, j, call_arg):
         """expression of value `item j`, written inside module index m"""
         a, b = layout[m], layout[home[j]]
@@ -240,8 +468,20 @@ def make_script(g, rng, layout_idx=None, order=None):
             local_import = "import %s;" % qual(a, b, name, rng.choice(["abs", "rel"]))
             path = name
         styles_used.add("path:" + how)
-        e = path if call_arg is None else "%s(%s)" % (path, call_arg)
         role = "const" if call_arg is None else "fn"
+        if call_arg is None and rng.random() < (0.08 if ty[j] == "i32" else 0.3):
+            # the referencing item (a constant initialiser at compile time, or a function) first takes a copy of
+            # the constant and modifies the copy (never a push: that would be visible), then reads the constant:
+            # the reference still contributes Num(stored value)
+            h = rng.choice([x for x in HOWS[ty[j]] if x != "push"])
+            styles_used.add("copymod:%s:%s" % ("const" if not in_fn_now[0] else "fn", ty[j]))
+            e = "({ let q = %s; %s %s })" % (path, modify(m, j, h, rng.choice([0, 7, 40])), num_expr(j, path))
+            return use_int(e, role, "t%d" % j, local_import, False)
+        if call_arg is None and ty[j] != "i32":
+            # a constant of another type: the reference is the i32 expression Num(type, constant)
+            styles_used.add("ref:" + ty[j])
+            return use_int(num_expr(j, path), role, "t%d" % j, local_import, False)
+        e = path if call_arg is None else "%s(%s)" % (path, call_arg)
         return use_int(e, role, "t%d" % j, local_import, call_arg is None)
 
     def use_int(e, role, tmp, local_import, is_path):
@@ -304,6 +544,7 @@ def make_script(g, rng, layout_idx=None, order=None):
 
     def terms(i, in_fn):
         m = home[i]
+        in_fn_now[0] = in_fn
         ts = []
         for j in rng.sample(succ[i], len(succ[i])):
             if g["kind"][j - 1] == "c":
@@ -329,7 +570,17 @@ def make_script(g, rng, layout_idx=None, order=None):
                 init = "{ let s = %s; mark(%d, s) }" % (s, i)
             else:
                 init = "keep(mark(%d, %s))" % (i, s)
-            decls[m].append("const %s: i32 = %s;" % (name, init))
+            if ty[i] != "i32":
+                styles_used.add("constty:" + ty[i])
+                if ty[i] in ("unit", "urec") and st != 2 and rng.random() < 0.5:
+                    # nothing to carry: the host function that returns nothing
+                    styles_used.add("marku:" + ty[i])
+                    init = init.replace("mark(", "marku(")
+                    if ty[i] == "urec":
+                        init = ("{ u: %s, w: () }" if anon[i] else tpath(m, "U2") + " { u: %s, w: () }") % init
+                else:
+                    init = build(m, i, init, False)
+            decls[m].append("const %s: %s = %s;" % (name, tyexpr(m, i), init))
         else:
             ts = terms(i, True)
             st = rng.randrange(3)
@@ -359,6 +610,7 @@ def make_script(g, rng, layout_idx=None, order=None):
         if g["kind"][i - 1] == "c":
             m = rng.randrange(nmod)
             path = names[i] if m == home[i] else qual(layout[m], layout[home[i]], names[i], rng.choice(["abs", "rel"]))
+            path = num_expr(i, path)
             if watched:
                 gname = "get_c%d" % i
                 decls[m].insert(rng.randrange(len(decls[m]) + 1), "fn %s() -> i32 { %s }" % (gname, path))
@@ -377,6 +629,63 @@ def make_script(g, rng, layout_idx=None, order=None):
                     decls[m].insert(rng.randrange(len(decls[m]) + 1), "fn never_c%d() -> i32 { if false { %s } else { 0 } }" % (i, path))
         elif watched:
             calls.append({"id": i, "name": ".".join(layout[home[i]] + [names[i]]), "arg": FUEL})
+    # the Call-phase programme: one exported function per action (ConstOrder.Mut / GetV / Get / Call), each in a
+    # module of its own choice; helpers (the callee that modifies its parameter, the function that returns the
+    # constant) possibly in yet another module
+    hprog = []
+
+    def put(m, text):
+        decls[m].insert(rng.randrange(len(decls[m]) + 1), text)
+
+    def exported(m, fname):
+        return ".".join(layout[m] + [fname])
+
+    for p, op in enumerate(prog or []):
+        i = op["id"]
+        m = rng.randrange(nmod)
+        if op["op"] == "call":
+            hprog.append({"what": "call", "id": i, "name": ".".join(layout[home[i]] + [names[i]]), "ret": "fn", "arg": FUEL})
+            continue
+        if op["op"] == "get":
+            put(m, "fn geti_%d() -> i32 { %s }" % (p, num_expr(i, cpath(m, i))))
+            hprog.append({"what": "get", "id": i, "name": exported(m, "geti_%d" % p), "ret": "i32"})
+            continue
+        # how the constant is read again: directly (field reads of the constant) or through another fresh copy
+        if rng.random() < 0.5:
+            styles_used.add("reread:direct")
+            reread = lambda out: flat_stmts(i, cpath(m, i), out)
+        else:
+            styles_used.add("reread:copy")
+            reread = lambda out: "let k%s = %s; %s" % (out, cpath(m, i), flat_stmts(i, "k" + out, out))
+        if op["op"] == "getv":
+            put(m, "fn getv_%d() -> String { %s r2 }" % (p, reread("r2")))
+            hprog.append({"what": "getv", "id": i, "name": exported(m, "getv_%d" % p), "ret": "str",
+                          "first_read": bool(op.get("first_read"))})
+            continue
+        via, how, w = op["via"], op["how"], op["w"]
+        styles_used.add("mut:%s:%s" % (ty[i], how))
+        styles_used.add("via:" + via)
+        tail = '%s f"{r1}|{r2}"' % reread("r2")
+        if via == "local":
+            put(m, "fn mut_%d() -> String { let q = %s; %s %s %s }" %
+                (p, cpath(m, i), modify(m, i, how, w), flat_stmts(i, "q", "r1"), tail))
+        elif via == "param":
+            m2 = rng.randrange(nmod)
+            put(m2, "fn mutp_%d(q: %s) -> String { %s %s r1 }" % (p, tyexpr(m2, i), modify(m2, i, how, w), flat_stmts(i, "q", "r1")))
+            callee = "mutp_%d" % p if m2 == m else qual(layout[m], layout[m2], "mutp_%d" % p, rng.choice(["abs", "rel"]))
+            put(m, "fn mut_%d() -> String { let r1 = %s(%s); %s }" % (p, callee, cpath(m, i), tail))
+        else:
+            m2 = rng.randrange(nmod)
+            put(m2, "fn give_%d() -> %s { %s }" % (p, tyexpr(m2, i), cpath(m2, i)))
+            giver = "give_%d" % p if m2 == m else qual(layout[m], layout[m2], "give_%d" % p, rng.choice(["abs", "rel"]))
+            put(m, "fn mut_%d() -> String { let q = %s(); %s %s %s }" %
+                (p, giver, modify(m, i, how, w), flat_stmts(i, "q", "r1"), tail))
+        hprog.append({"what": "mut", "id": i, "name": exported(m, "mut_%d" % p), "ret": "str",
+                      "via": via, "how": how, "w": w})
+    # the named record types are declared in the root module
+    for name in ("E0", "U2", "N3", "P2"):
+        if name in need_decl:
+            decls[0].insert(rng.randrange(len(decls[0]) + 1), RECORD_DECLS[name])
     # families of constants that nothing live reads (classification only, for the vacuity guard)
     called = {c["id"] for c in calls}
     readers = {i: {a for (a, b) in g["refs"] if b == i} for i in range(1, n + 1)}
@@ -403,12 +712,37 @@ def make_script(g, rng, layout_idx=None, order=None):
         src = "\n".join(imports[m] + decls[m]) + "\n"
         files.append({"name": fname, "module": p[-1] if p else "pkg", "children": children, "src": src})
     use_ctx = bool(g["ctx"]) or rng.random() < 0.25
-    return ({"files": files, "ctx": use_ctx, "ctxv": CTXVAL, "modulus": MODULUS, "calls": calls, "gets": gets},
-            styles_used)
+    return ({"files": files, "ctx": use_ctx, "ctxv": CTXVAL, "modulus": MODULUS, "calls": calls, "gets": gets,
+             "prog": hprog}, styles_used)
 
 
 def graph_of(c):
-    return {"n": c["n"], "kind": c["kind"], "refs": c["refs"], "ctx": c["ctx"]}
+    return {"n": c["n"], "kind": c["kind"], "refs": c["refs"], "ctx": c["ctx"], "ty": c["ty"]}
+
+
+def random_prog(g, rng, k, first_reads=False):
+    """Seeded generator of a Call-phase programme (no expectations attached: TLC validates the recorded trace).
+    first_reads: start with a typed getter per constant (nothing has been modified yet)."""
+    consts = [i for i in range(1, g["n"] + 1) if g["kind"][i - 1] == "c"]
+    fns = [i for i in range(1, g["n"] + 1) if g["kind"][i - 1] == "f"]
+    prog = []
+    if first_reads:
+        prog = [{"op": "getv", "id": i, "first_read": True} for i in consts]
+    if not consts:
+        return prog + [{"op": "call", "id": rng.choice(fns)} for _ in range(min(k, 2))]
+    for _ in range(k):
+        dice = rng.random()
+        i = rng.choice(consts)
+        if dice < 0.55:
+            prog.append({"op": "mut", "id": i, "via": rng.choice(VIAS), "how": rng.choice(HOWS[g["ty"][i - 1]]),
+                         "w": rng.choice([0, 1, 2, 7, 40, 333, rng.randrange(MODULUS)])})
+        elif dice < 0.8:
+            prog.append({"op": "getv", "id": i})
+        elif dice < 0.9 or not fns:
+            prog.append({"op": "get", "id": i})
+        else:
+            prog.append({"op": "call", "id": rng.choice(fns)})
+    return prog
 
 
 def random_graph(rng):
@@ -431,7 +765,10 @@ def random_graph(rng):
     elif dice < 0.45:
         for _ in range(rng.choice([1, 1, 2])):
             ctx.add(rng.randrange(n) + 1)
-    return {"n": n, "kind": kind, "refs": sorted(list(e) for e in refs), "ctx": sorted(ctx)}
+    # value types of the constants: half of the graphs all i32, the others mixed
+    mixed = rng.random() < 0.5
+    ty = [rng.choice(TYPES) if (mixed and kind[i] == "c" and rng.random() < 0.6) else "i32" for i in range(n)]
+    return {"n": n, "kind": kind, "refs": sorted(list(e) for e in refs), "ctx": sorted(ctx), "ty": ty}
 
 
 # --------------------------------------------------------------- comparisons
@@ -441,7 +778,8 @@ ERR_CTX = "depends on a context variable"
 
 
 def short(g):
-    return "n=%d kind=%s refs=%s ctx=%s" % (g["n"], "".join(g["kind"]), g["refs"], g["ctx"])
+    tys = "" if all(t == "i32" for t in g["ty"]) else " ty=%s" % ",".join(g["ty"])
+    return "n=%d kind=%s refs=%s ctx=%s%s" % (g["n"], "".join(g["kind"]), g["refs"], g["ctx"], tys)
 
 
 def check_outcome(g, hc, res, verd):
@@ -457,10 +795,52 @@ def check_outcome(g, hc, res, verd):
     return False
 
 
+def parse_flat(text):
+    """rendering of a typed value by the script ("" | "n,n,..") -> list of numbers (representation only)"""
+    if text == "":
+        return []
+    parts = text.split(",")
+    if not all(re.fullmatch(r"\d{1,9}", x) for x in parts):
+        return None
+    return [int(x) for x in parts]
+
+
+def decode_prog(g, hc, res, verd):
+    """Turn the strings returned by the typed functions of the programme into values (`v`).  Returns False
+    (and reports) if one of them is not a rendering at all."""
+    r = res.get("r")
+    if not r or r.get("compile") != "ok":
+        return True
+    for o in r["obs"]:
+        if "p" not in o or "v" in o:
+            continue
+        op = hc["prog"][o["p"]]
+        parts = o["str"].split("|")
+        vals = [parse_flat(x) for x in parts]
+        if len(parts) != (2 if op["what"] == "mut" else 1) or any(v is None for v in vals):
+            verd.report({"kind_of_failure": "wrong-observed-value", "what": op["what"], "detail": "not-a-rendering"},
+                        "%s of constant %d returned %r, not a rendering of a value of type %s; graph %s" %
+                        (op["what"], op["id"], o["str"][:80], g["ty"][op["id"] - 1], short(g)),
+                        {"graph": g, "hcase": hc, "result": r})
+            return False
+        o["v"] = vals if op["what"] == "mut" else vals[0]
+        if op["what"] == "mut":
+            o.update(via=op["via"], how=op["how"], w=op["w"])
+    return True
+
+
+def describe_op(op):
+    if op["what"] != "mut":
+        return "%s(%d)" % (op["what"], op["id"])
+    return "mut(constant %d, via %s, %s, w=%d)" % (op["id"], op["via"], op["how"], op["w"])
+
+
 def compare(c, hc, res, verd):
     """S->I: compare what the real crate did with what TLC computed from ConstOrder."""
     g = graph_of(c)
     if not check_outcome(g, hc, res, verd):
+        return False
+    if not decode_prog(g, hc, res, verd):
         return False
     r = res["r"]
     rep = {"graph": g, "expect": c, "hcase": hc, "result": r}
@@ -516,10 +896,36 @@ def compare(c, hc, res, verd):
                     "constants evaluated again after compilation: %s; graph %s" % (r["marks_after"], short(g)), rep)
         return False
     for o in r["obs"]:
+        if "p" in o:
+            continue
         if o["v"] != c["vals"][o["id"] - 1]:
             verd.report(dict(base, kind_of_failure="wrong-observed-value", what=o["what"]),
                         "%s of item %d returned %d, spec says %d; graph %s" %
                         (o["what"], o["id"], o["v"], c["vals"][o["id"] - 1], short(g)), rep)
+            return False
+    # the Call-phase programme: the first len(c["prog"]) actions are TLC's, with the result TLC computed; a typed
+    # getter placed before any modification has to show Flat(stored value) (c["flat"]); further actions
+    # appended by the generator have no precomputed result: the trace validation decides
+    done = {o["p"]: o for o in r["obs"] if "p" in o}
+    for pidx, op in enumerate(hc["prog"]):
+        if pidx not in done:
+            raise vlib.ToolError("no result recorded for action %d of the programme: %s" % (pidx, r))
+        got = done[pidx]["v"]
+        if pidx < len(c["prog"]):
+            want = c["prog"][pidx]["v"]
+        elif op.get("first_read"):
+            want = c["flat"][op["id"] - 1]
+        else:
+            continue
+        if got != want:
+            what = op["what"]
+            detail = ""
+            if what == "mut" and got[0] == want[0]:
+                detail = "constant-differs-after-its-copy-was-modified"
+            verd.report(dict(base, kind_of_failure="wrong-observed-value", what=what, detail=detail),
+                        "action %d of the programme, %s on a constant of type %s, showed %s, spec says %s%s; graph %s" %
+                        (pidx, describe_op(op), g["ty"][op["id"] - 1] if op["what"] != "call" else "-", got, want,
+                         " (copy | constant read again)" if what == "mut" else "", short(g)), rep)
             return False
     return True
 
@@ -532,7 +938,10 @@ def events_of(g, r):
     evs.append({"op": "compile", "ok": r["compile"] == "ok"})
     if r["compile"] == "ok":
         for o in r["obs"]:
-            evs.append({"op": o["what"], "id": o["id"], "v": o["v"]})
+            if "p" in o and o["what"] == "mut":
+                evs.append({"op": "mut", "id": o["id"], "via": o["via"], "how": o["how"], "w": o["w"], "v": o["v"]})
+            else:
+                evs.append({"op": o["what"], "id": o["id"], "v": o["v"]})
         for m in r["marks_after"]:
             evs.append({"op": "mark", "k": m["k"], "s": m["s"]})
     return evs
@@ -596,7 +1005,8 @@ def validate_runs(runs, verd, ev, tag, nfiles=4):
             for (g, hc, r) in part:
                 for e in events_of(g, r):
                     ev.impl_actions.add({"mark": "EvalConst", "compile": "Done" if e.get("ok") else "Reject",
-                                         "call": "Call", "get": "Get", "graph": "Init"}[e["op"]])
+                                         "call": "Call", "get": "Get", "getv": "GetV", "mut": "Mut",
+                                         "graph": "Init"}[e["op"]])
             for ((g, hc, r), un) in bad:
                 e = un["ev"]
                 verd.report({"kind_of_failure": "trace-rejected", "op": e.get("op", "?"),
@@ -607,44 +1017,86 @@ def validate_runs(runs, verd, ev, tag, nfiles=4):
     return total
 
 
-def selfcheck_binding(runs):
+SELFCHECKS = ["swapped", "twice", "missing", "wrong-value", "mark-before-reject",
+              # a write to a copy that reaches the constant; a push through a copy of a list constant that does
+              # not; a constant without any leaves whose initialiser never ran; a typed getter showing another value
+              "copy-write-reached-constant", "list-push-lost", "zero-sized-constant-not-evaluated", "wrong-typed-read"]
+
+
+def selfcheck_binding(runs, needed):
     """Anti-vacuity of the trace binding: hand-corrupted variants of an accepted recorded run must be
     rejected by TraceConstOrder (a swapped dependent pair, a repeated mark, a wrong value, a mark
-    before a rejection)."""
+    before a rejection; a constant that shows the modification made to a copy of it, a list constant that
+    does not show a push made through a copy, a zero-sized constant that was never evaluated, a typed
+    getter that shows something else; the intact runs these are made from are validated with all others by
+    validate_runs).  Returns the names (of `needed`) that could be built from these runs
+    and were rejected."""
     d = vlib.workdir(PID, "trace")
+    variants = {}
+    basic = {"swapped", "twice", "missing", "wrong-value", "mark-before-reject"}
     good = rej = None
+    if needed & basic:
+        for (g, hc, r) in runs:
+            if r["compile"] == "ok" and good is None:
+                ks = [m["k"] for m in r["marks"]]
+                dep = [(a, b) for (a, b) in g["refs"] if a in ks and b in ks and a != b]
+                if dep and any(o["what"] in ("get", "call") for o in r["obs"]):
+                    good = (g, r, dep[0])
+            if r["compile"] == "err" and rej is None and any(k == "c" for k in g["kind"]):
+                rej = (g, r)
+            if good and rej:
+                break
+    if good and rej:
+        g, r, (a, b) = good
+        base = events_of(g, r)
+        ia = next(i for i, e in enumerate(base) if e["op"] == "mark" and e["k"] == a)
+        ib = next(i for i, e in enumerate(base) if e["op"] == "mark" and e["k"] == b)
+        swapped = list(base)
+        swapped[ia], swapped[ib] = swapped[ib], swapped[ia]
+        twice = base[:ia + 1] + [base[ia]] + base[ia + 1:]
+        missing = base[:ia] + base[ia + 1:]
+        io = next(i for i, e in enumerate(base) if e["op"] in ("get", "call"))
+        wrong = [dict(e) for e in base]
+        wrong[io]["v"] = (wrong[io]["v"] + 1) % MODULUS
+        g2, r2 = rej
+        base2 = events_of(g2, r2)
+        c2 = g2["kind"].index("c") + 1
+        early = [base2[0], {"op": "mark", "k": c2, "s": 0}] + base2[1:]
+        variants.update({"intact": base + base2, "swapped": swapped, "twice": twice, "missing": missing,
+                         "wrong-value": wrong, "mark-before-reject": early})
     for (g, hc, r) in runs:
-        if r["compile"] == "ok" and good is None:
-            ks = [m["k"] for m in r["marks"]]
-            dep = [(a, b) for (a, b) in g["refs"] if a in ks and b in ks and a != b]
-            if dep and r["obs"]:
-                good = (g, r, dep[0])
-        if r["compile"] == "err" and rej is None and any(k == "c" for k in g["kind"]):
-            rej = (g, r)
-        if good and rej:
+        if r["compile"] != "ok":
+            continue
+        want = {x for x in needed - basic if x not in variants}
+        if not want:
             break
-    if not good or not rej:
-        return None
-    g, r, (a, b) = good
-    base = events_of(g, r)
-    ia = next(i for i, e in enumerate(base) if e["op"] == "mark" and e["k"] == a)
-    ib = next(i for i, e in enumerate(base) if e["op"] == "mark" and e["k"] == b)
-    swapped = list(base)
-    swapped[ia], swapped[ib] = swapped[ib], swapped[ia]
-    twice = base[:ia + 1] + [base[ia]] + base[ia + 1:]
-    missing = base[:ia] + base[ia + 1:]
-    io = next(i for i, e in enumerate(base) if e["op"] in ("get", "call"))
-    wrong = [dict(e) for e in base]
-    wrong[io]["v"] = (wrong[io]["v"] + 1) % MODULUS
-    g2, r2 = rej
-    base2 = events_of(g2, r2)
-    c2 = g2["kind"].index("c") + 1
-    early = [base2[0], {"op": "mark", "k": c2, "s": 0}] + base2[1:]
-    variants = {"intact": base + base2, "swapped": swapped, "twice": twice, "missing": missing, "wrong-value": wrong,
-                "mark-before-reject": early}
+        base = None
+        first = 2 + len(r["marks"])          # graph, marks.., compile, then one event per observation
+        for idx, o in enumerate(r["obs"]):
+            t = g["ty"][o["id"] - 1]
+            name = None
+            if o["what"] == "mut" and t != "list" and o["v"][0] != o["v"][1]:
+                name, v = "copy-write-reached-constant", [o["v"][0], o["v"][0]]
+            elif o["what"] == "mut" and t == "list" and o["how"] == "push":
+                copy = o["v"][0]
+                name, v = "list-push-lost", [copy, [copy[0] - 1] + copy[1:-1]]
+            elif o["what"] == "getv" and o["v"]:
+                name, v = "wrong-typed-read", o["v"][:-1] + [o["v"][-1] + 1]
+            if name in want and name not in variants:
+                base = base or events_of(g, r)
+                evs = [dict(e) for e in base]
+                evs[first + idx]["v"] = v
+                variants[name] = evs
+        if "zero-sized-constant-not-evaluated" in want:
+            zs = [m["k"] for m in r["marks"] if g["ty"][m["k"] - 1] in ZERO_SIZED]
+            if zs:
+                base = base or events_of(g, r)
+                variants["zero-sized-constant-not-evaluated"] = [e for e in base if not (e["op"] == "mark" and e["k"] == zs[0])]
+    if not variants:
+        return []
 
     def one(name):
-        path = os.path.join(d, "selfcheck_%s.ndjson" % name)
+        path = os.path.join(d, "selfcheck_%s.ndjson" % name.replace(":", "_"))
         vlib.write_ndjson(path, variants[name])
         tr = validate_file(path, timeout=600, heap="2g")
         if not tr.ok and not tr.postcondition_failed:
@@ -652,12 +1104,82 @@ def selfcheck_binding(runs):
         return name, tr.ok
     with ThreadPoolExecutor(max_workers=6) as ex:
         res = dict(ex.map(one, list(variants)))
-    if not res["intact"]:
-        raise vlib.ToolError("self-check: the intact trace was rejected")
-    wrongly = [n for n, ok in res.items() if n != "intact" and ok]
+    broken = [n for n, ok in res.items() if n.startswith("intact") and not ok]
+    if broken:
+        raise vlib.ToolError("self-check: an intact trace was rejected: %s" % broken)
+    wrongly = [n for n, ok in res.items() if not n.startswith("intact") and ok]
     if wrongly:
         raise vlib.ToolError("self-check: corrupted traces were accepted by TraceConstOrder: %s" % wrongly)
-    return sorted(n for n in res if n != "intact")
+    return sorted(n for n in res if not n.startswith("intact"))
+
+
+def count_typed(c, st, prog):
+    """what the value-type / copy families of one accepted TLC case contain (for the anti-vacuity guard);
+    prog = TLC's programme followed by the reads the generator appended (decided by the trace validation)"""
+    n = c["n"]
+    def bump(d, k):
+        d[k] = d.get(k, 0) + 1
+    consts = [i for i in range(1, n + 1) if c["kind"][i - 1] == "c"]
+    for i in consts:
+        t = c["ty"][i - 1]
+        bump(st["constants_of_type"], t)
+        if any(b == i for (a, b) in c["refs"]):
+            bump(st["with_dependents"], t)
+        if c["deps"][i - 1]:
+            bump(st["with_dependencies"], t)
+    if any(c["ty"][i - 1] != "i32" for i in consts):
+        st["typed_cases"] += 1
+    if c["prog"]:
+        st["walk_cases"] += 1
+    mutated, pushed = set(), set()
+    for k, op in enumerate(prog if c["prog"] else []):
+        if op["op"] == "call":
+            continue
+        if op["id"] in mutated and k < len(c["prog"]):
+            st["read_after_mut_of_same_constant"] += 1
+        if op["id"] in pushed:
+            st["read_after_push"] += 1
+            if k < len(c["prog"]):
+                st["read_after_push_in_tlc_programme"] += 1
+        if op["op"] == "mut":
+            t = c["ty"][op["id"] - 1]
+            bump(st["mut"], "%s:%s" % (t, op["how"]))
+            bump(st["via"], op["via"])
+            mutated.add(op["id"])
+            if op["how"] == "push":
+                pushed.add(op["id"])
+
+
+def require_typed(st, styles):
+    """Anti-vacuity of the value-type and copy families: every type occurs as a constant that is evaluated, one
+    that others wait for and one that waits for others; every (type, modification) pair and every way of
+    obtaining the copy occurs in TLC's programmes; reads after a modification of the same constant occur."""
+    miss = []
+    for t in TYPES:
+        for fam in ("constants_of_type", "with_dependents", "with_dependencies"):
+            if not st[fam].get(t):
+                miss.append("%s:%s" % (fam, t))
+        for h in HOWS[t]:
+            if not st["mut"].get("%s:%s" % (t, h)):
+                miss.append("mut:%s:%s (TLC programmes)" % (t, h))
+            if "mut:%s:%s" % (t, h) not in styles:
+                miss.append("mut:%s:%s (rendered)" % (t, h))
+        if t != "i32" and ("constty:" + t not in styles or "ref:" + t not in styles):
+            miss.append("constty/ref:" + t)
+        for role in ("const", "fn"):
+            if "copymod:%s:%s" % (role, t) not in styles:
+                miss.append("copymod:%s:%s" % (role, t))
+    for v in VIAS:
+        if not st["via"].get(v) or "via:" + v not in styles:
+            miss.append("via:" + v)
+    for k in ("read_after_mut_of_same_constant", "read_after_push", "walk_cases", "typed_cases"):
+        if not st[k]:
+            miss.append(k)
+    for x in ("marku:unit", "marku:urec", "reread:direct", "reread:copy"):
+        if x not in styles:
+            miss.append(x)
+    if miss:
+        raise vlib.ToolError("value-type / copy families never generated: %s" % miss)
 
 
 # ----------------------------------------------------------------------- run
@@ -699,14 +1221,17 @@ def run_body(tier, ev, verd):
     fam = {}
     picked = {}
     nscripts = 0
-    selfchecked = False
+    tstats = {"constants_of_type": {}, "with_dependents": {}, "with_dependencies": {}, "mut": {}, "via": {},
+              "references_that_modify_a_copy_first": {}, "read_after_mut_of_same_constant": 0, "read_after_push": 0, "read_after_push_in_tlc_programme": 0, "walk_cases": 0, "typed_cases": 0}
+    needed = set(SELFCHECKS)
     # the small graphs first is fine, but mix families so that every chunk has accepted and rejected runs
     rng.shuffle(graphs)
-    chunk = 12000 if tier == "quick" else 4000
+    chunk = 14000 if tier == "quick" else 4000
     # a small first chunk: on a broken tree (thousands of crashing workers are slow) violations show up early
     bounds = [0, min(2000, len(graphs))] + list(range(2000 + chunk, len(graphs), chunk)) + [len(graphs)]
     bounds = sorted(set(bounds))
     for lo, hi in zip(bounds, bounds[1:]):
+        t_chunk = time.time()
         cases = []   # (expectation, hcase)
         for c in graphs[lo:hi]:
             g = graph_of(c)
@@ -720,15 +1245,39 @@ def run_body(tier, ev, verd):
                     variants = [(0, p) for p in itertools.permutations(range(1, n + 1))] + [(None, None), (None, None)]
                 else:
                     variants = [(0, None), (1, None), (2, None), (3, None)]
+            walk = bool(c["prog"])
+            if walk or c["family"].startswith("typed"):
+                # the value-type / copy families: one random module layout (thorough: plus the single file)
+                variants = [(None, None)] if tier == "quick" else [(0, None), (None, None)]
+            consts_of = [i for i in range(1, n + 1) if g["kind"][i - 1] == "c"]
             for (lay, order) in variants:
-                hc, st = make_script(g, rng, lay, order)
+                # the Call-phase programme: TLC's recorded actions (walk family, with TLC's results) followed by
+                # actions chosen here (results decided by the trace validation): after a walk every constant and
+                # function is read once more; the other families get a typed getter per constant (which has to
+                # show Flat(stored value), printed by TLC) and a few seeded actions
+                prog = []
+                if c["verdict"] == "ok":
+                    if walk:
+                        prog = c["prog"] + [{"op": "getv", "id": i} for i in consts_of] + \
+                               [{"op": "call", "id": i} for i in range(1, n + 1) if i not in consts_of]
+                    elif c["family"] not in ("all3", "sim") or rng.random() < 0.1:
+                        prog = random_prog(g, rng, rng.randrange(1, 5), first_reads=True)
+                hc, st = make_script(g, rng, lay, order, prog)
+                if c["verdict"] == "ok":
+                    count_typed(c, tstats, prog)
                 if c["verdict"] != "ok":
                     # nothing is evaluated there: does not count for these families
                     st = {x for x in st if not x.startswith(("unread:", "samename:"))}
                 styles |= st
+                for x in st:
+                    if x.startswith("copymod:"):
+                        tstats["references_that_modify_a_copy_first"][x[8:]] = \
+                            tstats["references_that_modify_a_copy_first"].get(x[8:], 0) + 1
                 cases.append((c, hc))
         nscripts += len(cases)
+        t_gen = time.time()
         results = vlib.run_batch("c14", [hc for (_, hc) in cases], nproc=8, pid=PID, tag="s2i", stall=30)
+        t_run = time.time()
         runs = []
         for (c, hc), res in zip(cases, results):
             g = graph_of(c)
@@ -741,11 +1290,14 @@ def run_body(tier, ev, verd):
                     key=vlib.shash([g, srcs]))
             if ok:
                 ev.traces += 1
-            if "r" in res:
+            if "r" in res and all("v" in o for o in res["r"].get("obs", [])):
                 runs.append((g, hc, res["r"]))
                 cat = None
                 if c["verdict"] == "ok" and len(res["r"]["marks"]) >= 3 and len(hc["files"]) > 1 and len(g["refs"]) >= 4:
                     cat = "ok-multi-module"
+                if c["prog"] and len(hc["files"]) > 1 and any(o["op"] == "mut" and g["ty"][o["id"] - 1] in ("rec2", "nest", "list")
+                                                             for o in c["prog"]):
+                    cat = "typed-walk"
                 elif c["why"] == "cycle" and g["n"] >= 4 and len(hc["files"]) > 1:
                     cat = "rejected-cycle"
                 elif c["why"] == "ctx" and g["n"] >= 4 and not any(g["kind"][i - 1] == "c" for i in g["ctx"]):
@@ -755,20 +1307,23 @@ def run_body(tier, ev, verd):
                          "marks": res["r"]["marks"], "observed": [[o["what"], o["id"], o["v"]] for o in res["r"].get("obs", [])][:8]}
                     if len(json.dumps(o)) < 1500:
                         picked[cat] = o
-        if not selfchecked:
-            sc = selfcheck_binding(runs)
-            if sc is not None:
-                ev.extra["corrupted_traces_rejected"] = sc
-                selfchecked = True
+        t_cmp = time.time()
+        if needed:
+            needed -= set(selfcheck_binding(runs, needed))
+        t_self = time.time()
         ev.traces += validate_runs(runs, verd, ev, "s2i", nfiles=6)
+        if os.environ.get("C14_TIMING"):
+            vlib.log("C14: chunk of %d scripts: generate %.1fs, harness %.1fs, compare %.1fs, self-check %.1fs, trace validation %.1fs"
+                     % (len(cases), t_gen - t_chunk, t_run - t_gen, t_cmp - t_run, t_self - t_cmp, time.time() - t_self))
         vlib.log("C14: %d scripts compiled, compared and validated (%.0fs)" % (nscripts, time.time() - ev.t0))
         if len(verd.violations) >= 25:
             vlib.log("C14: %d violations so far, not generating further cases" % len(verd.violations))
             rc = verd.finish()
             ev.write(len(verd.violations))
             return rc
-    if not selfchecked and not verd.violations:
-        raise vlib.ToolError("no suitable recorded run for the corruption self-check")
+    if needed and not verd.violations:
+        raise vlib.ToolError("no suitable recorded run for the corruption self-checks %s" % sorted(needed))
+    ev.extra["corrupted_traces_rejected"] = sorted(set(SELFCHECKS) - needed)
     want_styles = {"path:plain", "path:abs", "path:rel", "path:import_top", "path:import_local",
                    "const:0", "const:1", "const:2", "fn:0", "fn:1", "fn:2"}
     # every use form must occur in the constant role and in the context role (and, except the method
@@ -786,6 +1341,7 @@ def run_body(tier, ev, verd):
                     "unread:unreachable-code-only", "unread:uncalled-function-only"}
     if want_styles - styles:
         raise vlib.ToolError("reference styles never generated: %s" % sorted(want_styles - styles))
+    ev.extra["typed_families"] = tstats
     for k in ("ok/none", "rejected/cycle", "rejected/ctx", "rejected/cycle+ctx"):
         if not fam.get(k):
             raise vlib.ToolError("case family never generated: %s" % k)
@@ -795,17 +1351,26 @@ def run_body(tier, ev, verd):
     # I->S (b): larger seeded random graphs, no precomputed expectation: TLC decides from the trace alone
     nbig = 1500 if tier == "quick" else 12000
     big = []
+    bigstyles = []
     for _ in range(nbig):
         g = random_graph(rng)
-        hc, _st = make_script(g, rng)
+        hc, st = make_script(g, rng, prog=random_prog(g, rng, rng.randrange(0, 9)))
         big.append((g, hc))
+        bigstyles.append({x for x in st if x.startswith("copymod:")})
     results = vlib.run_batch("c14", [hc for (_, hc) in big], nproc=8, pid=PID, tag="i2s", stall=30)
     runs2 = []
     nok = nerr = 0
-    for (g, hc), res in zip(big, results):
+    for (g, hc), res, st in zip(big, results, bigstyles):
+        if res.get("r", {}).get("compile") == "ok":
+            # references that modify a copy first, in scripts that were compiled (their effect is decided by TLC
+            # from the recorded trace)
+            styles |= st
+            for x in st:
+                tstats["references_that_modify_a_copy_first"][x[8:]] = \
+                    tstats["references_that_modify_a_copy_first"].get(x[8:], 0) + 1
         ev.case({"graph": short(g), "files": [f["src"] for f in hc["files"]]}, nontrivial(g),
                 key=vlib.shash([g, [f["src"] for f in hc["files"]]]))
-        if not check_outcome(g, hc, res, verd):
+        if not check_outcome(g, hc, res, verd) or not decode_prog(g, hc, res, verd):
             continue
         r = res["r"]
         if r["compile"] == "err" and (r["kinds"] != ["type"] or not (ERR_CYCLE in r["error"] or ERR_CTX in r["error"])):
@@ -819,6 +1384,7 @@ def run_body(tier, ev, verd):
         nok += r["compile"] == "ok"
         nerr += r["compile"] == "err"
         runs2.append((g, hc, r))
+    require_typed(tstats, styles)
     if nok < nbig // 5 or nerr < nbig // 20:
         raise vlib.ToolError("random graphs badly balanced: %d accepted, %d rejected of %d" % (nok, nerr, nbig))
     ev.extra["random_graphs"] = {"n": nbig, "compiled": nok, "rejected": nerr}
@@ -830,8 +1396,11 @@ def run_body(tier, ev, verd):
     ev.exhaustive = True
     ev.extra["exhaustive_parts"] = exhaustive
     ev.assumptions = [
-        "scripts have the fixed shape modelled in ConstOrder (one mark call per initialiser, fuel-bounded functions); "
-        "other initialiser shapes (strings, lists, records, runtime constants) are not generated",
+        "scripts have the fixed shape modelled in ConstOrder (one mark call per initialiser, fuel-bounded functions, "
+        "the ten value types of ConstOrder.Types built from the number mark returns); registered runtime constants "
+        "and other initialiser shapes are not generated",
+        "copies of constants are modified by one modification per function (ConstOrder.Hows); every combination of "
+        "value types exhaustively on <= 2 items, programmes of Call-phase actions by seeded simulation on 2-4 items",
         "exhaustive for all graphs on <= 3 items; 4-6 items seeded simulation; 7-10 items seeded python generator (I->S only)",
         "references are static mentions; every mentioned item is also used at run time",
         "only accept/reject is compared, never the diagnostic text (text is used only to detect a broken generator)",
@@ -848,11 +1417,17 @@ def replay(path):
     verd = Verdicts(PID)
     ev = Evidence(PID, "quick")
     g, hc = obj["graph"], obj["hcase"]
+    g.setdefault("ty", ["i32"] * g["n"])
+    hc.setdefault("prog", [])
     res = vlib.run_batch("c14", [hc], nproc=1, pid=PID, tag="replay")[0]
     if "expect" in obj:
-        compare(obj["expect"], hc, res, verd)
-    elif not check_outcome(g, hc, res, verd):
+        c = obj["expect"]
+        c.setdefault("ty", g["ty"])
+        c.setdefault("prog", [])
+        c.setdefault("flat", [[] for _ in range(g["n"])])
+        compare(c, hc, res, verd)
+    elif not check_outcome(g, hc, res, verd) or not decode_prog(g, hc, res, verd):
         return verd.finish()
-    if "r" in res:
+    if "r" in res and all("v" in o for o in res["r"].get("obs", [])):
         validate_runs([(g, hc, res["r"])], verd, ev, "replay", nfiles=1)
     return verd.finish()
